@@ -333,3 +333,41 @@ Print Assumptions get_phosphosequence_reachable.
 Lemma fw_get_phosphosites : g_fw_get_phosphosites = SReturn (ECall "SeqObj.get_phosphosites"%string []). Proof. reflexivity. Qed.
 Lemma fw_get_all_phosphorylatable_sites : g_fw_get_all_phosphorylatable_sites = SReturn (ECall "SeqObj.get_STY_residues"%string []). Proof. reflexivity. Qed.
 Lemma fw_get_phosphosequence : g_fw_get_phosphosequence = SReturn (ECall "SeqObj.get_phosphosequence"%string []). Proof. reflexivity. Qed.
+
+(* the two public setters are exactly the backend call with their own argument, result discarded *)
+Lemma fw_set_phosphosites : g_fw_set_phosphosites = SAssign "$_"%string (ECall "SeqObj.setPhosPhoSites"%string [EVar "phosphosites"%string]). Proof. reflexivity. Qed.
+Lemma fw_clear_phosphosites : g_fw_clear_phosphosites = SAssign "$_"%string (ECall "SeqObj.clear_phosphosites"%string []). Proof. reflexivity. Qed.
+
+(* get_full_phosphostatus_kappa_distribution: whatever the count of states is (it is only printed), the backend's distribution *)
+Lemma full_phosphostatus_tie (prim : string -> list value -> value) (r : env) :
+  is_bad (prim "SeqObj.calculateNumberDifferentPhosphoStates"%string []) = false ->
+  is_bad (prim "SeqObj.calculateKappaDistOfPhosphoStates"%string []) = false ->
+  MiniPy.exec prim 0 g_fw_get_full_phosphostatus r = ORet (prim "SeqObj.calculateKappaDistOfPhosphoStates"%string []).
+Proof.
+  intros H1 H2. unfold g_fw_get_full_phosphostatus. rewrite exec_seq.
+  rewrite (exec_assign_ok _ _ _ _ (eval_call0 _ _) H1). apply exec_return_ok; [apply eval_call0 | exact H2].
+Qed.
+
+(* get_kappa_after_phosphorylation: with or without sites (the branch only prints), the backend's kappa_at_maxPhos *)
+Lemma kappa_after_phosphorylation_tie (prim : string -> list value -> value) (r : env) l :
+  prim "get_phosphosites"%string [] = VList l ->
+  is_bad (prim "SeqObj.kappa_at_maxPhos"%string []) = false ->
+  MiniPy.exec prim 0 g_fw_get_kappa_after_phosphorylation r = ORet (prim "SeqObj.kappa_at_maxPhos"%string []).
+Proof.
+  intros H1 H2. unfold g_fw_get_kappa_after_phosphorylation. rewrite exec_seq.
+  assert (E : MiniPy.exec prim 0 (SIf (EEq (ELen (ECall "get_phosphosites" [])) (EConst (VInt 0))) SSkip SSkip) r = ONorm r).
+  { rewrite exec_if. cbn [MiniPy.eval map]. rewrite H1. cbn [is_bad existsb orb]. destruct l; reflexivity. }
+  rewrite E. apply exec_return_ok; [apply eval_call0 | exact H2].
+Qed.
+
+(* calculateNumberDifferentPhosphoStates: np.power(2, number of sites) *)
+Lemma numstates_tie (prim : string -> list value -> value) (r : env) l :
+  lookup "self.phosphosites" r = VList l -> is_bad (prim "np.power"%string [VInt 2; VInt (Z.of_nat (List.length l))]) = false ->
+  MiniPy.exec prim 0 g_numstates r = ORet (prim "np.power"%string [VInt 2; VInt (Z.of_nat (List.length l))]).
+Proof.
+  intros H1 H2. unfold g_numstates. apply exec_return_ok; [|exact H2].
+  cbn [MiniPy.eval map]. rewrite H1. reflexivity.
+Qed.
+Print Assumptions full_phosphostatus_tie.
+Print Assumptions kappa_after_phosphorylation_tie.
+Print Assumptions numstates_tie.
